@@ -1465,6 +1465,10 @@ pub fn gen_op(s: &Solo, r: &mut Rng, prof: &GenProfile) -> Op {
             if x < 95 && cfg.f_loss {
                 return Op::Close { partial: 0 };
             }
+            // the ping interval may be changed between CONNECT and CONNACK as well
+            if r.chance(1, 4) {
+                return Op::SetPing { ms: *r.pick(&[None, Some(0), Some(3000)]) };
+            }
             // a timer armed by the CONNECT may expire before the CONNACK arrives
             let armed: Vec<Tk> = Tk::ALL.iter().cloned().filter(|k| s.deadline[k.ix()].is_some()).collect();
             if !armed.is_empty() && r.chance(1, 2) {
